@@ -14,7 +14,8 @@
 //        obs:    per step "ok:<raw dump>#cb:<seen,...>" | "err:<class>" | "panic", joined by "|",
 //                then "||exp:<expanded dump of the last tree>||pure:<0|1>||new:<cidhex=val;...>"
 //   <id>  wt  <blocks>  <root>  <selector>  <fn>  <obs>
-//        obs: "ok:<raw dump>#cb:<seen,...>" | "err:<class>" | "panic" then "||pure:<0|1>||new:<n>"
+//        selector: M | E | A(s) | F(khex:s,...) | I(n,s) | G(start,end,s) | U(s,...) | R(limit|-,s)
+//        obs: "ok:<raw dump>#cb:<path=seen,...>" | "err:<class>" | "panic" then "||pure:<0|1>||new:<n>"
 package main
 
 import (
@@ -63,15 +64,13 @@ type faultWriter struct {
 func (f *faultWriter) Write(p []byte) (int, error) {
 	if !f.fired {
 		f.k--
-		if f.k <= 0 {
+		if f.k <= 0 && (f.mode == 'w' || len(p) > 0) { // an empty Write cannot be short: wait for the next one
 			f.fired = true
 			if f.mode == 'w' {
 				return 0, errors.New("injected write fault")
 			}
-			if len(p) > 0 {
-				n, _ := f.w.Write(p[:len(p)-1])
-				return n, nil
-			}
+			n, _ := f.w.Write(p[:len(p)-1])
+			return n, nil
 		}
 	}
 	return f.w.Write(p)
@@ -509,10 +508,11 @@ func runFT(g *graph, root *lib.Val, steps []step) string {
 // ---------------------------------------------------------------- selectors (small fragment)
 
 type sel struct {
-	op   byte // M A F I U R E
+	op   byte // M A F I G U R E
 	kids []*sel
 	keys []string // F
-	n    int64    // I index, R limit (-1 = none)
+	n    int64    // I index, R limit (-1 = none), G start
+	m    int64    // G end
 }
 
 func (s *sel) text() string {
@@ -525,6 +525,8 @@ func (s *sel) text() string {
 		return "A(" + s.kids[0].text() + ")"
 	case 'I':
 		return "I(" + strconv.FormatInt(s.n, 10) + "," + s.kids[0].text() + ")"
+	case 'G':
+		return "G(" + strconv.FormatInt(s.n, 10) + "," + strconv.FormatInt(s.m, 10) + "," + s.kids[0].text() + ")"
 	case 'R':
 		l := "-"
 		if s.n >= 0 {
@@ -556,6 +558,13 @@ func parseSel(t string) (*sel, string) {
 	case 'A':
 		k, rest := parseSel(t[2:])
 		return &sel{op: 'A', kids: []*sel{k}}, rest[1:]
+	case 'G':
+		i := strings.IndexByte(t, ',')
+		j := i + 1 + strings.IndexByte(t[i+1:], ',')
+		a, _ := strconv.ParseInt(t[2:i], 10, 64)
+		b, _ := strconv.ParseInt(t[i+1:j], 10, 64)
+		k, rest := parseSel(t[j+1:])
+		return &sel{op: 'G', n: a, m: b, kids: []*sel{k}}, rest[1:]
 	case 'I', 'R':
 		i := strings.IndexByte(t, ',')
 		var n int64 = -1
@@ -604,6 +613,8 @@ func (s *sel) spec(ssb builder.SelectorSpecBuilder) builder.SelectorSpec {
 		return ssb.ExploreAll(s.kids[0].spec(ssb))
 	case 'I':
 		return ssb.ExploreIndex(s.n, s.kids[0].spec(ssb))
+	case 'G':
+		return ssb.ExploreRange(s.n, s.m, s.kids[0].spec(ssb))
 	case 'R':
 		lim := selector.RecursionLimitNone()
 		if s.n >= 0 {
@@ -633,7 +644,7 @@ func genSel(r *lib.Rng, depth int, inRec bool, keys []string) *sel {
 	if depth <= 0 {
 		return &sel{op: 'M'}
 	}
-	switch r.Intn(9) {
+	switch r.Intn(12) {
 	case 0:
 		return &sel{op: 'M'}
 	case 1, 2:
@@ -641,8 +652,8 @@ func genSel(r *lib.Rng, depth int, inRec bool, keys []string) *sel {
 			return &sel{op: 'A', kids: []*sel{{op: 'E'}}}
 		}
 		return &sel{op: 'A', kids: []*sel{genSel(r, depth-1, inRec, keys)}}
-	case 3:
-		n := 1 + r.Intn(2)
+	case 3, 4: // fields: a subset of the keys that occur (in any order), sometimes keys that do not
+		n := 1 + r.Intn(3)
 		s := &sel{op: 'F'}
 		seen := map[string]bool{}
 		for i := 0; i < n; i++ {
@@ -655,9 +666,16 @@ func genSel(r *lib.Rng, depth int, inRec bool, keys []string) *sel {
 			s.kids = append(s.kids, genSel(r, depth-1, inRec, keys))
 		}
 		return s
-	case 4:
-		return &sel{op: 'I', n: int64(r.Intn(3)), kids: []*sel{genSel(r, depth-1, inRec, keys)}}
 	case 5:
+		return &sel{op: 'I', n: int64(r.Intn(4)), kids: []*sel{genSel(r, depth-1, inRec, keys)}}
+	case 6, 7: // range: inside, overlapping the end of, or beyond typical lists (0-5 elements)
+		a := int64(r.Intn(5))
+		b := a + 1 + int64(r.Intn(4))
+		if r.Intn(6) == 0 {
+			a, b = a+5, b+7
+		}
+		return &sel{op: 'G', n: a, m: b, kids: []*sel{genSel(r, depth-1, inRec, keys)}}
+	case 8:
 		n := 2 + r.Intn(2)
 		s := &sel{op: 'U'}
 		for i := 0; i < n; i++ {
@@ -676,9 +694,35 @@ func genSel(r *lib.Rng, depth int, inRec bool, keys []string) *sel {
 		if r.Intn(3) > 0 {
 			lim = int64(1 + r.Intn(3))
 		}
-		// the sequence must contain an edge: union of a generated member and all->edge
+		// the sequence must contain an edge
+		switch r.Intn(4) {
+		case 0: // all -> edge alone: nothing is matched, every level is rebuilt
+			return &sel{op: 'R', n: lim, kids: []*sel{{op: 'A', kids: []*sel{{op: 'E'}}}}}
+		case 1: // fields / range -> edge next to a generated member
+			var via *sel
+			if r.Bool() {
+				via = &sel{op: 'F', keys: []string{keys[r.Intn(len(keys))]}, kids: []*sel{{op: 'E'}}}
+			} else {
+				via = &sel{op: 'G', n: 0, m: int64(1 + r.Intn(3)), kids: []*sel{{op: 'E'}}}
+			}
+			return &sel{op: 'R', n: lim, kids: []*sel{{op: 'U', kids: []*sel{genSel(r, depth-1, true, keys), via}}}}
+		}
 		return &sel{op: 'R', n: lim, kids: []*sel{{op: 'U', kids: []*sel{genSel(r, depth-1, true, keys), {op: 'A', kids: []*sel{{op: 'E'}}}}}}}
 	}
+}
+
+// progPath renders Progress.Path the way paths are written in the records
+func progPath(p datamodel.Path) string {
+	segs := p.Segments()
+	if len(segs) == 0 {
+		return "."
+	}
+	var sb strings.Builder
+	for _, s := range segs {
+		sb.WriteByte('/')
+		sb.WriteString(lib.Hex(s.String()))
+	}
+	return sb.String()
 }
 
 func walkFn(fn string, log *[]string) (traversal.TransformFn, error) {
@@ -693,8 +737,8 @@ func walkFn(fn string, log *[]string) (traversal.TransformFn, error) {
 			return nil, err
 		}
 	}
-	return func(_ traversal.Progress, n datamodel.Node) (datamodel.Node, error) {
-		*log = append(*log, seenText(n))
+	return func(prog traversal.Progress, n datamodel.Node) (datamodel.Node, error) {
+		*log = append(*log, progPath(prog.Path)+"="+seenText(n))
 		switch fn {
 		case "id":
 			return n, nil
@@ -1315,6 +1359,17 @@ func corpus(out *lib.Out) {
 	wt(lib.List(lib.Int(1), lib.List(lib.Int(2))), nil, "U(A(M),F(30:M))", "i2s")
 	wt(lib.Map(e("k", lib.Link(i2))), ind, all, "i2s")
 	wt(lib.Map(e("k", lib.Link(i2))), ind, all, "id")
+	// interests over maps and lists that have entries outside them; keys absent / in another order
+	l5 := lib.List(lib.Int(0), lib.List(lib.Int(1), lib.Int(2)), lib.Int(2), lib.Map(e("x", lib.Int(3))), lib.Int(4))
+	m5 := lib.Map(e("x", lib.Int(1)), e("l", l5), e("a", lib.Str("s")), e("m", m3), e("0", lib.Int(9)))
+	for _, fn := range []string{"id", "i2s", "c:n"} {
+		for _, st := range []string{"F(61:M)", "F(6d:M,78:M)", "F(7a7a:M,78:M)", "F(6c:G(1,3,M))", "F(6c:G(3,9,M),6d:F(6c:A(M)))",
+			"G(0,2,M)", "G(1,4,A(M))", "G(4,9,M)", "G(7,9,M)", "I(3,F(78:M))", "U(G(0,2,M),I(3,A(M)))", "U(F(78:M),G(0,1,M))",
+			"A(G(0,1,M))", "A(F(78:M))", "R(2,U(M,G(1,3,E)))", "R(-,U(F(6c:E,6d:E),M))", "R(1,A(E))", "R(2,A(E))", "R(-,U(G(1,4,M),A(E)))"} {
+			wt(m5, nil, st, fn)
+			wt(l5, nil, st, fn)
+		}
+	}
 	wt(lib.Int(4), nil, "M", "i2s")
 	wt(lib.Null(), nil, "M", "id")
 }
@@ -1406,7 +1461,7 @@ func main() {
 			}
 		}
 		blocks := g.listing(nil)
-		if i%4 == 3 {
+		if i%3 == 2 {
 			keys := keysOf(g.expand(root, 0))
 			s := genSel(r, 3, false, keys)
 			fns := []string{"id", "id", "i2s", "l2n", "m2l", "c:" + r.GenVal(smallCfg, 0).Text()}
